@@ -641,8 +641,8 @@ def body(ctx):
             # oracle: pseudo flag; values on the grid are never within 1e-10 of the threshold unless equal to it
             want = (obs[i] <= censor) and bool(np.any(ens[i] <= censor))
             if bool(sudo[i]) != want:
-                # censor + EPS == censor in double precision from |censor| ~ 1.7e6: the strict tests then miss values
-                # exactly at the threshold (known finding; the exact model satisfies the clause)
+                # censor + EPS == censor in double precision from |censor| ~ 1.7e6: tests written with that sum miss values
+                # exactly at the threshold (defect of the pinned tree, fixed by comparing differences)
                 absorbed = (censor + EPS_PIT == censor) and want and not bool(sudo[i]) and \
                     (obs[i] == censor or not np.any(ens[i] < censor))
                 ctx.finding("pit/pseudo_flag" + ("/eps_absorbed_at_large_threshold" if absorbed else ""),
